@@ -277,6 +277,8 @@ pub fn dispatch(f: &[&str]) -> String {
             h.set(cd);
             hex(h.to_string().as_bytes())
         }
+        "mime.format" => crate::mime::format(f[1]),
+        "mime.message" => crate::mime::message(f[1]),
         "body.new" => {
             use lettre::message::Body;
             let raw = unhex(f[2]);
